@@ -534,7 +534,11 @@ func (x *Exec) spawn(st *State, s *ast.GoStmt) {
 		// an anonymous goroutine: its body runs elsewhere and is not verified (listed as an
 		// assumption); hooked channel operations in it are ownership obligations that fail
 		scanBody(lit.Body, "func-literal", 0)
-		x.anonGoroutines = append(x.anonGoroutines, x.fn.name()+" line "+x.line(s))
+		if lit.Type.Params == nil || len(lit.Type.Params.List) == 0 {
+			x.goroutineBody(st, s, lit)
+		} else {
+			x.anonGoroutines = append(x.anonGoroutines, x.fn.name()+" line "+x.line(s))
+		}
 		st.note("go func literal")
 		return
 	}
@@ -1963,6 +1967,75 @@ func verifyFunc(w *World, sp *Specs, prog *Program, fi *FuncInfo, spec *FuncSpec
 		x.errs = append(x.errs, fi.name()+": too many paths (VC size cap)")
 	}
 	return x
+}
+
+// goroutineBody executes the body of "go func() { ... }()" as the code of another goroutine:
+// it starts at some later moment, concurrently with everything else, so nothing is known there
+// about the ghost state or about any heap component - except struct fields declared shared in a
+// confine block (immutable once goroutines exist; C20 checks that) - nor about captured locals
+// the enclosing function assigns again. What is known: the facts of the spawner's path about
+// values that cannot change (parameters, shared fields). Safety obligations, preconditions of
+// the calls and the hooks of channel operations in the body are generated as for any code;
+// the frame of the enclosing function is not concerned (another goroutine's writes).
+func (x *Exec) goroutineBody(st *State, s *ast.GoStmt, lit *ast.FuncLit) {
+	g := st.fork()
+	x.goEpoch++
+	g.epoch = fmt.Sprintf("g%d", x.goEpoch)
+	g.defers = nil
+	g.writes = nil
+	g.polls = nil
+	g.names = nil
+	g.nameLog = nil
+	for name, cur := range g.heap {
+		if x.sharedComp(name) {
+			continue
+		}
+		g.heap[name] = Val{T: x.freshConst("H"+g.epoch+"_"+name, cur.S), S: cur.S}
+	}
+	nr := x.freshConst("nextref", "Int")
+	g.assume(app(">=", nr, g.nextref))
+	g.nextref = nr
+	// captured locals that are assigned again somewhere in the enclosing function
+	captured := map[types.Object]bool{}
+	ast.Inspect(lit.Body, func(n ast.Node) bool {
+		if id, ok := n.(*ast.Ident); ok {
+			if o, ok := x.info().Uses[id].(*types.Var); ok {
+				if _, has := g.vars[o]; has {
+					captured[o] = true
+				}
+			}
+		}
+		return true
+	})
+	if x.fn.decl.Body != nil {
+		ast.Inspect(x.fn.decl.Body, func(n ast.Node) bool {
+			var lhs []ast.Expr
+			switch t := n.(type) {
+			case *ast.AssignStmt:
+				if t.Tok != token.DEFINE {
+					lhs = t.Lhs
+				}
+			case *ast.IncDecStmt:
+				lhs = []ast.Expr{t.X}
+			case *ast.UnaryExpr:
+				if t.Op == token.AND {
+					lhs = []ast.Expr{t.X}
+				}
+			}
+			for _, l := range lhs {
+				if id, ok := ast.Unparen(l).(*ast.Ident); ok {
+					if o, ok := x.info().Uses[id].(*types.Var); ok && captured[o] {
+						g.vars[o] = x.freshVal(g, "cap_"+o.Name(), o.Type())
+					}
+				}
+			}
+			return true
+		})
+	}
+	g.note(fmt.Sprintf("goroutine[%d]:body", x.ordinal(s)))
+	end := func(*State) { x.paths++ }
+	inner := &Ctx{onReturn: func(s3 *State, _ []Val) { x.runDefers(s3, len(s3.defers)-1, end) }}
+	x.stmts(lit.Body.List, g, inner, func(s3 *State) { x.runDefers(s3, len(s3.defers)-1, end) })
 }
 
 func (x *Exec) runDefers(st *State, i int, k func(*State)) {
